@@ -19,11 +19,19 @@ func ciscoPlan(kind, prop string) RunFunc {
 		if prop == "C14" {
 			// Two workloads: Netspoc-shaped ACLs (deny block, permits, final
 			// deny), and arbitrary mixes of permit and deny.
-			if tp.Next(4) != 0 {
+			if tp.Next(2) != 0 {
 				mode = "shaped|"
 				adjust = func(k *gen.Knobs) { k.Shaped, k.NoShare, k.Independent, k.Remarks = true, true, false, false }
 			} else {
 				mode = "mix|"
+				// Concentrate on line edits of few, longer ACLs.
+				adjust = func(k *gen.Knobs) {
+					k.Clutter, k.Crypto, k.Remarks, k.Independent = false, false, false, false
+					k.MaxGroups = 0
+					k.MaxIfaces = 1 + k.MaxIfaces%2
+					k.MaxLines = 4 + k.MaxLines%7
+					k.MaxEdits = 3 + k.MaxEdits%6
+				}
 			}
 		}
 		cs := GenCiscoCaseK(tp, kind, adjust)
@@ -90,23 +98,29 @@ func ciscoPlan(kind, prop string) RunFunc {
 				return fail(mode+o.StepKey, o.Step)
 			}
 		default: // C01, C02
+			rejected := ""
 			if len(o.Rejects) > 0 {
-				c.Count("skipped_rejected_script", 1)
-				return nil
+				// The device refused a command and went on with the rest
+				// (C08 reports the refusal itself): the result still counts.
+				c.Count("scripts_with_rejected_command", 1)
+				rejected = "|after-rejected-command"
 			}
 			if o.Unchanged != "" {
 				return fail("unchanged-but-different|"+diffKind(o.Unchanged),
 					"tool reports no change but device differs from target: "+o.Unchanged)
 			}
 			if o.StateDiff != "" {
-				k := "state-differs|" + diffKind(o.StateDiff)
+				k := "state-differs|" + diffKind(o.StateDiff) + rejected
 				if kind == "IOS" && hasRemarks(cs) {
 					k += "|acl-with-remarks"
 				}
 				return fail(k, "after executing the script: "+o.StateDiff)
 			}
+			if rejected != "" {
+				return nil
+			}
 			if msg, p2 := c.Recompare(cs, o.Node.Conf, tp); msg != "" {
-				f := fail("recompare-nonempty|"+script2Kind(p2), msg)
+				f := fail("recompare-nonempty|"+script2KindOn(p2, o.Node.Conf), msg)
 				f.Input["device_after"] = strings.Split(cisco.Print(o.Node.Conf, cs.PO), "\n")
 				f.Input["script2"] = scriptText(p2.Script)
 				return f
@@ -166,6 +180,8 @@ func init() {
 		Registry[p] = func(c *Ctx, tp *tape.Tape, x map[string]any) *Failure {
 			kind := "ASA"
 			switch n := tp.Next(8); {
+			case n == 7 && p == "C14":
+				return c14Linux(c, tp, x)
 			case n >= 6 && p != "C14":
 				if n == 7 && nsxConverge != nil {
 					return nsxConverge(p)(c, tp, x)
@@ -328,4 +344,49 @@ func asaGroupSwapOnly(p Plan) bool {
 		}
 	}
 	return true
+}
+
+var iosNumRE = regexp.MustCompile(`^\d+ `)
+var asaHeadRE = regexp.MustCompile(`^access-list \S+ line \d+ `)
+
+// script2KindOn refines script2Kind with the device the script is meant for:
+// "log-option-only" if every added ACL line is on the device already but for
+// its log option and everything else deletes numbered lines.
+func script2KindOn(p Plan, dev *cisco.Conf) string {
+	k := script2Kind(p)
+	if !strings.HasPrefix(k, "other:") || dev == nil {
+		return k
+	}
+	have := map[string]map[string]bool{} // key without log -> full spellings
+	for _, a := range dev.ACLs {
+		for _, e := range a.Entries {
+			kk := cisco.AceKey(dev.Kind, e.Text)
+			if have[kk] == nil {
+				have[kk] = map[string]bool{}
+			}
+			have[kk][cisco.NormACE(dev.Kind, e.Text)] = true
+		}
+	}
+	adds := 0
+	for _, c := range p.Script {
+		l := c.Line
+		switch {
+		case strings.HasPrefix(l, "ip access-list resequence "), strings.HasPrefix(l, "ip access-list extended "), l == "exit":
+		case strings.HasPrefix(l, "no access-list "), strings.HasPrefix(l, "no ") && iosNumRE.MatchString(strings.TrimPrefix(l, "no ")+" "):
+		case iosNumRE.MatchString(l), asaHeadRE.MatchString(l):
+			t := iosNumRE.ReplaceAllString(l, "")
+			t = asaHeadRE.ReplaceAllString(t, "")
+			m := have[cisco.AceKey(dev.Kind, t)]
+			if m == nil || m[cisco.NormACE(dev.Kind, t)] {
+				return k
+			}
+			adds++
+		default:
+			return k
+		}
+	}
+	if adds > 0 {
+		return "log-option-only"
+	}
+	return k
 }
